@@ -931,11 +931,13 @@ theorem mem_unique_of_id {l : List VEnt} (h : l.Pairwise (fun a b => a.id ≠ b.
   | nil => cases hx
   | cons e r ih =>
     rw [List.pairwise_cons] at h
-    rcases List.mem_cons.1 hx with rfl | hx <;> rcases List.mem_cons.1 hy with rfl | hy
-    · rfl
-    · exact absurd hid (h.1 y hy)
-    · exact absurd hid.symm (h.1 x hx)
-    · exact ih h.2 hx hy
+    rcases List.mem_cons.1 hx with hx1 | hx1
+    · rcases List.mem_cons.1 hy with hy1 | hy1
+      · rw [hx1, hy1]
+      · exact absurd hid (hx1 ▸ h.1 y hy1)
+    · rcases List.mem_cons.1 hy with hy1 | hy1
+      · exact absurd hid.symm (hy1 ▸ h.1 x hx1)
+      · exact ih h.2 hx1 hy1
 
 /-- under the invariant the scanned candidates carry pairwise different ids -/
 theorem candidates_nodup (cfg : Cfg) (s : State) (targets : List Int) (score : Vec → Int) (hb : cfg.buffer = false)
@@ -1084,7 +1086,8 @@ theorem step_good_spec (cfg : Cfg) (hb : cfg.buffer = false) (hd : cfg.dedup = t
       · exact hg
     have hm1 : ∀ j, live cfg s1 j = m j := by
       intro j; rw [← hm j]; subst hs1; split
-      · simp only [live]; rw [get_congr cfg s _ j rfl rfl (fun _ _ => rfl) rfl]
+      · have := get_congr cfg s { s with cents := seedCentroids items.length } j rfl rfl (fun _ _ => rfl) rfl
+        simp only [live, this]
       · rfl
     have h := foldItems_good_spec cfg items hb hd ht s1 m ho hg1 hm1
     rw [commit_good cfg s _ ht h.1.bad]
@@ -1131,5 +1134,103 @@ theorem C33_partial (cfg : Cfg) (hb : cfg.buffer = false) (hd : cfg.dedup = true
       have h1 := step_good_spec cfg hb hd ht s m o (hok o List.mem_cons_self) hg hm
       exact ih _ _ (fun x hx => hok x (List.mem_cons_of_mem _ hx)) h1.1 h1.2
   exact key ops {} _ hok ⟨Inv_empty, rfl⟩ (fun j => by simp [live, Sop.Vector.get, afind])
+
+/-! ## Where the full-strength statement fails on the code as it is (witnesses replayed by the harness corpus) -/
+
+/-- the full-strength statement about `Optimize`: in *every* configuration a successful Optimize changes no answer of
+    `Get` (the ingestion buffer, when it was in use, is dropped afterwards as the usage rule says) -/
+def Statement_C33_optimize : Prop :=
+  ∀ (cfg : Cfg) (s : State) (cons : Id → Int × Int) (mig : Id → Vec → Int × Int) (cents : List Int) (j : Id),
+    Good s → MigOk mig → (optimize cfg s cons mig cents).2 = "ok" →
+      live { cfg with buffer := false } (optimize cfg s cons mig cents).1 j = live cfg s j
+
+def cfgBuf : Cfg := ⟨true, true, false⟩
+def cfgIdx : Cfg := ⟨false, true, false⟩
+def cfgTrk : Cfg := ⟨false, true, true⟩
+def cfgOff : Cfg := ⟨false, false, false⟩
+
+/-- buffered: `up 0; up 1; del 1` -/
+def sBuf : State :=
+  (delete cfgBuf (upsert cfgBuf (upsert cfgBuf {} ⟨0, 1, 1, 0, 0, 0⟩ []).1 ⟨1, 2, 2, 0, 0, 0⟩ []).1 1).1
+
+/-- **C33_counterexample** (finding C33-F1): a buffered id deleted before the first Optimize is live again after it,
+    with an empty vector — `Consolidate` re-upserts every buffered id Content still knows, tombstoned or not. -/
+theorem C33_counterexample : ¬ Statement_C33_optimize := by
+  intro h
+  have hgood : Good sBuf := by
+    have hv : sBuf.vectors = [] := by decide
+    refine ⟨⟨(by rw [hv]; exact List.Pairwise.nil), (by intro e he; rw [hv] at he; cases he), ?_⟩, (by decide)⟩
+    intro i k p hk
+    have hs : sBuf.content = [(0, ({} : CKey), 1), (1, ({ del := true } : CKey), 2)] := by decide
+    rw [hs] at hk
+    simp only [afind] at hk
+    split at hk
+    · cases hk; decide
+    · split at hk
+      · cases hk; decide
+      · cases hk
+  have h1 := h cfgBuf sBuf (fun _ => (1, 7)) (fun _ _ => (-1, 2139095039)) [] 1 hgood (by intro i v; simp) (by decide)
+  revert h1
+  decide
+
+/-- (finding C33-F2) the same with the *first* buffered id deleted: `Consolidate` seeds centroid 1 with that id's
+    empty vector and the distance routine indexes past its end — Optimize panics -/
+theorem C33_witness_buffer_first_deleted_panics :
+    (optimize cfgBuf (delete cfgBuf (upsert cfgBuf (upsert cfgBuf {} ⟨0, 1, 1, 0, 0, 0⟩ []).1 ⟨1, 2, 2, 0, 0, 0⟩ []).1 0).1
+      (fun _ => (1, 0)) (fun _ _ => (-1, 2139095039)) []).2 = "panic index" := by decide
+
+/-- count tracking: `up 0; del 0; up 0; del 0; up 0` leaves centroid 1 with count -1 and one live vector -/
+def sTrk : State :=
+  let u := fun (s : State) (p : Int) => (upsert cfgTrk s ⟨0, 1, p, 0, 1, 0⟩ []).1
+  let d := fun (s : State) => (delete cfgTrk s 0).1
+  u (d (u (d (u {} 1)) 2)) 3
+
+/-- (finding C33-F5) the next new id divides by zero in the rolling average: its commit is rejected, it is not stored -/
+theorem C33_witness_tracking_rejects_upsert :
+    afind sTrk.cents 1 = some (-1) ∧ (upsert cfgTrk sTrk ⟨1, 2, 4, 0, 1, 5⟩ []).2 = "err:commit" ∧
+    live cfgTrk (upsert cfgTrk sTrk ⟨1, 2, 4, 0, 1, 5⟩ []).1 1 = none := by decide
+
+/-- de-duplication off and an id upserted twice (outside the documented rule "only if you are certain IDs are
+    unique"): the old `(centroid, distance, id)` item stays and the id is hit twice -/
+theorem C33_witness_dedup_off_duplicate_hit :
+    (query cfgOff (upsert cfgOff (upsert cfgOff {} ⟨0, 1, 1, 0, 1, 0⟩ []).1 ⟨0, 3, 2, 0, 1, 5⟩ []).1 10 (fun _ => true) [1]
+      (fun v => v)).map (·.id) = [0, 0] := by decide
+
+/-- the full-strength item-set statement: *every* configuration behaves like the plain map -/
+def Statement_C33 : Prop :=
+  ∀ (cfg : Cfg) (ops : List Op), (∀ o ∈ ops, OpOk o) →
+    ∀ j, live cfg (ops.foldl (step cfg) {}) j = ops.foldl specStep (fun _ => none) j
+
+/-- `Statement_C33` fails with count tracking (the rejected Upsert above) -/
+theorem C33_counterexample_tracking : ¬ Statement_C33 := by
+  intro h
+  have h1 := h cfgTrk
+    [.upsert ⟨0, 1, 1, 0, 1, 0⟩, .delete 0, .upsert ⟨0, 1, 2, 0, 1, 0⟩, .delete 0, .upsert ⟨0, 1, 3, 0, 1, 0⟩,
+     .upsert ⟨1, 2, 4, 0, 1, 5⟩]
+    (by intro o ho; simp only [List.mem_cons, List.mem_nil_iff, or_false] at ho
+        rcases ho with rfl | rfl | rfl | rfl | rfl | rfl <;> simp [OpOk, Item.cid]) 1
+  revert h1
+  decide
+
+/-! ## the hypotheses of the partial theorems are satisfiable by non-trivial states -/
+
+/-- a program with a live item, a tombstoned item, a migration and an explicit centroid (what `C33_partial` quantifies over) -/
+def sampleOps : List Op :=
+  [.upsert ⟨0, 1, 1, 0, 1, 0⟩, .batch [⟨1, 2, 2, 0, 1, 5⟩, ⟨2, 3, 3, 0, 1, 9⟩], .delete 1,
+   .optimize (fun _ => (0, 0)) (fun i _ => (1, (i : Int) + 3)) [1], .upsert ⟨1, 4, 4, 2, 0, 6⟩]
+
+theorem sampleOps_ok : ∀ o ∈ sampleOps, OpOk o := by
+  intro o ho
+  simp only [sampleOps, List.mem_cons, List.mem_nil_iff, or_false] at ho
+  rcases ho with rfl | rfl | rfl | rfl | rfl <;> simp [OpOk, Item.cid, MigOk]
+
+example : (List.range 3).map (live cfgIdx (sampleOps.foldl (step cfgIdx) {})) = [some (1, 1), some (4, 4), some (3, 3)] := by
+  decide
+
+example : Inv (sampleOps.foldl (step cfgIdx) {}) := (C33_partial cfgIdx rfl rfl rfl sampleOps sampleOps_ok).1.inv
+
+/-- and the query theorem is not vacuous on it: two hits, distinct, in descending order -/
+example : (query cfgIdx (sampleOps.foldl (step cfgIdx) {}) 2 (fun _ => true) [1, 2] (fun v => v)).map (fun h => (h.id, h.score))
+    = [(1, 4), (2, 3)] := by decide
 
 end Sop.C33
